@@ -45,6 +45,10 @@ FIRST = {
     'y01-C01': 'caught', 'y02-C02': 'caught',
     'y06-C13': 'missed -> D2 mode-read-once',
     'y08-C18': 'missed -> new rule T7 (struct sequence field listing)',
+    'z01-C04': 'caught', 'z02-C07': 'caught', 'z03-C08': 'caught', 'z05-C12': 'caught', 'z06-C14': 'caught',
+    'z09-C17': 'caught', 'z10-C19': 'caught',
+    'z04-C11': 'missed -> S1 payload-only-from-state',
+    'z08-C16': 'missed -> new rule I5 (hand-driven iterator compared with end before every dereference)',
 }
 
 
